@@ -370,7 +370,7 @@ def reference(variant, surv=()):
             raise RuntimeError("reference load failed")
         # vacuity guards: the probe really produces the observables the comparison relies on
         if not surv:
-            assert o["probe rc"] == 1 and "Solution 3 not found" in o["GetErrorString"], o["GetErrorString"]
+            assert o["probe rc"] == 1, o["probe rc"]           # the probe's second simulation uses an undefined solution
             assert len(o["GetOutputString"]) > 3000 and len(o["GetDumpString"]) > 500
             assert len(o["sel"]["1"]["table"]) >= 5 and o["GetComponentCount"] >= 4
         _ref[key] = o
@@ -404,6 +404,7 @@ def first_diff(a, b):
 
 def norm_msg(line):
     s = re.sub(r"-?\d+(\.\d+)?([eE][+-]?\d+)?", "N", line)
+    s = re.sub(r"(include file|open dump file|Unable to open:?)\s*\S.*", r"\1 <name>", s)
     s = re.sub(r"\s+", " ", s).strip()
     return s[:70]
 
@@ -499,9 +500,10 @@ def execute(variant, case):
                     fn, rc, ", ".join(chans), first_diff(o2.get(k0, o2.get("sel")), ref.get(k0, ref.get("sel"))))
                 if failed:
                     # the engine keeps DUMP / DELETE / RUN_CELLS requests in members that neither a failed run nor
-                    # LoadDatabase resets (Phreeqc::dump_info, delete_info, run_info): name that mechanism by the
+                    # LoadDatabase resets (Phreeqc::dump_info, delete_info, run_info; the *_MIX blocks likewise): name that mechanism by the
                     # request blocks of the failed input; anything else is named by the differing channels
-                    req = sorted(set(l.split()[0].upper() for l in (text_of_call or "").split("\n") if l.split() and l.split()[0].upper() in ("DUMP", "DELETE", "RUN_CELLS")))
+                    req = sorted(set(("*_MIX" if l.split()[0].upper().endswith("_MIX") else l.split()[0].upper()) for l in (text_of_call or "").split("\n")
+                                     if l.split() and (l.split()[0].upper() in ("DUMP", "DELETE", "RUN_CELLS") or l.split()[0].upper().endswith("_MIX"))))
                     if req:
                         fp = "reload after a failed call is not the fresh state: pending %s request of the failed input survives the load" % "+".join(req)
                     else:
@@ -672,14 +674,14 @@ def bounds(tier):
         ("D0: %d valid base inputs x {RunString, RunFile, RunAccumulated}" % (len(G.BASES) + 1), d0_cases(), 4),
         ("file faults: unopenable/unwritable sinks x switch x good/bad input; missing/dir/empty/binary input, database and include files", fault_cases(), 4),
         ("undefined entity numbers: USE/SAVE/COPY/DELETE/DUMP/RUN_CELLS/MIX x kind x %s" % G.ENT_NUMS, ent_cases(), 8),
-        ("tiny strings: every string of length <= 3 over %r as input text, database text, RunFile name, LoadDatabase name" % G.TINY_ALPHABET, tiny_cases(3), 16),
+        ("tiny strings: every string of length <= 3 over %r as input text and database text, of length <= 2 as RunFile / LoadDatabase name" % G.TINY_ALPHABET, [c for c in tiny_cases(3) if len(c["s"]) <= 2 or c["as"] in ("str", "db")], 16),
         ("grammar blocks: every keyword x header variant, every (keyword, option) x argument in %r" % G.GRAM_ARGS, gram_cases(), 16),
         ("truncated BASIC: every prefix of %d programs in 4 hosts" % len(G.BASIC_PROGRAMS), basic_cases(), 16),
         ("D1: every single deviation of all %d base inputs (RunString)" % len(G.BASES), d1_cases(G.BASES), 16),
-        ("D1 via RunFile: every line/token deletion, truncation, swap, duplication of all base inputs", [dict(c, via="file") for c in d1_cases(G.BASES) if c["e"][0] != "rt"], 16),
+        ("D1 via RunFile: every line deletion and every truncation after a line of all base inputs", [dict(c, via="file") for c in d1_cases(G.BASES) if c["e"][0] in ("dl", "tl")], 16),
         ("database text D1: every single deviation of the mini database (string; file without replacements); phreeqc.dat every line deleted, truncated every 997 bytes", db_cases("thorough"), 8),
         ("shipped examples %s: whole and with every line deleted" % ",".join(EXAMPLES), example_cases(), 4),
-        ("D2: all pairs of token edits (deletion, %r) within one keyword block of <= 12 tokens, all base inputs" % [G.DICT[i] for i in G.DICT_SMALL], d2_cases(G.BASES, 12), 32),
+        ("D2: all pairs of token edits (deletion, %r) within one keyword block of <= 6 tokens, all base inputs" % [G.DICT[i] for i in G.DICT_SMALL], d2_cases(G.BASES, 6), 32),
     ]
 
 
